@@ -379,6 +379,21 @@ static DCase gen_draw() {
 
 static Verdict run_draw(const DCase &c) {
   Verdict v;
+  // The reference route issues one composite per glyph (or one for the whole mask): a transformed source must be drawable
+  // for each of those rectangles, otherwise the library drops that composite (C04) while the glyph entry points, which do
+  // not analyse extents per glyph, still draw -- a difference at the edge of the representable range, not a glyph property
+  if (c.src.has_transform) {
+    bool ok = true;
+    if (c.masked) ok = transform_in_domain(c.src, c.sx, c.sy, c.w, c.h);
+    for (auto &g : c.glyphs) {
+      int gx = c.dx + g.x - g.img.ox, gy = c.dy + g.y - g.img.oy;
+      ok = ok && transform_in_domain(c.src, c.sx + gx - c.dx, c.sy + gy - c.dy, g.img.w, g.img.h);
+    }
+    if (!ok) {
+      v.label("skipped_source_transform_outside_representable_range");
+      return v;
+    }
+  }
   acclog().n = 0;  // accessor address ranges are per case (build_img registers them)
   acclog().calls = acclog().bad = 0;
   pixman_glyph_cache_t *cache = pixman_glyph_cache_create();
